@@ -471,7 +471,13 @@ void Network::arrive_b2c(Conn& c, std::string data, uint64_t epoch) {
         check_triggers(c, Dir::b2c);
         if (epoch != c.epoch || c.dead || c.client_closed || c.blackhole) return;
     }
+    bool had_read = c.read_op && c.read_op->pending();
     try_complete_read(c);
+    if (stall_on_next_arrival > 0 && had_read && !(c.read_op && c.read_op->pending()) && !healed && stall_cb) {
+        ns_t d = stall_on_next_arrival; stall_on_next_arrival = 0;
+        w.count("fault.stall_after_arrival");
+        stall_cb(d);
+    }
 }
 
 void Network::broker_close(Conn& c, bool rst) {
